@@ -45,6 +45,7 @@ type ReplayOpts struct {
 	Queries        bool // serve read-only queries between blocks
 	SkipInvariants bool // started with --x-crisis-skip-assert-invariants
 	InvCheckPeriod uint // started with --inv-check-period=n
+	DebugLog       bool // runs with log_level debug (every log call formats its values)
 }
 
 // ReplayLog re-executes a recorded history on a fresh application and returns the digests.
@@ -60,6 +61,10 @@ func ReplayLogOpts(rf ReplayFile, o ReplayOpts) ([]string, error) {
 	if o.InvCheckPeriod > 0 {
 		chain.InvCheckPeriod = o.InvCheckPeriod
 		defer func() { chain.InvCheckPeriod = 0 }()
+	}
+	if o.DebugLog {
+		chain.DebugLogger = true
+		defer func() { chain.DebugLogger = false }()
 	}
 	n, err := chain.NewNodeFromGenesis(rf.Genesis, rf.GenTime, 1)
 	if err != nil {
@@ -185,7 +190,12 @@ func runC11(c *fw.Case) {
 		c.Count("replay_errors", 1)
 	}
 	c11Compare(c, "application started with --inv-check-period", n.Digests, d6)
-	c.Count("variant_replicas", 4)
+	d7, err := ReplayLogOpts(rf, ReplayOpts{DebugLog: true})
+	if err != nil {
+		c.Count("replay_errors", 1)
+	}
+	c11Compare(c, "application running with log_level debug", n.Digests, d7)
+	c.Count("variant_replicas", 5)
 	// (b) separate processes
 	nProc := 1
 	if c.Tier == "thorough" {
